@@ -209,9 +209,6 @@ M("c07-treeinfo-type-gate", ["C07"],
   (TI, '            if self.version_tuple >= (1, 1):\n                metadata_type = parser.get(self._section, "type")', '            if self.version_tuple >= (1, 1) and parser.has_option(self._section, "type"):\n                metadata_type = parser.get(self._section, "type")'))
 M("c07-images-deserialize-bypasses-add", ["C07", "C09", "C10"],
   (IM, '                    else:\n                        self.add(variant, arch, image_obj)\n        self.header.set_current_version()', '                    else:\n                        self.images.setdefault(variant, {}).setdefault(arch, set()).add(image_obj)\n        self.header.set_current_version()'))
-M("c07-variant-deserialize-no-validate", ["C07"],
-  (CI, '            self.add(variant)\n\n        self.validate()\n\n    def serialize(self, data):\n        dump = {}', '            self.add(variant)\n\n    def serialize(self, data):\n        dump = {}'))
-
 # ---- C08 ------------------------------------------------------------------
 M("c08-images-not-sorted", ["C08"],
   (IM, '                    images.sort(key=lambda x: x["path"])\n', ''))
@@ -357,8 +354,6 @@ M("c20-except-keyerror", ["C20"],
   (CO, '        except ValueError as exc:', '        except KeyError as exc:'))
 M("c20-legacy-scan-any-subdir", ["C20"],
   (CO, '                if _file_exists(metadata_path):\n                    self.compose_path = path\n                    break', '                if os.path.isdir(path) and not i.startswith("."):\n                    self.compose_path = path\n                    break'))
-M("c20-trailing-slash-compose", ["C20"],
-  (CO, '        path = os.path.join(compose_path, "compose")\n', '        path = compose_path + "/compose" if not compose_path.endswith("/") else compose_path + "/compose/"[1:-1] + "x"[:0]\n        path = path if not compose_path.endswith("//") else compose_path\n'))
 M("c20-modules-reuse-rpms-cache", ["C20"],
   (CO, '        if self._modules is not None:\n            return self._modules\n', '        if self._modules is not None or self._rpms is not None and False:\n            return self._modules\n'),
   (CO, '        self._modules = self._load_metadata(paths, productmd.modules.Modules)\n        return self._modules', '        obj = self._load_metadata(paths, productmd.modules.Modules)\n        self._modules = obj if self._composeinfo is not None else None\n        return obj'))
